@@ -45,6 +45,9 @@ var polluters = map[string]string{
 	"ctorDeclare": "如何新建异常？\n    输入文\n    如何内助？\n        输出“leak”\n    定义内类：\n        其p = 1\n    令丑 = （内助）\n令错 = （新建异常：“x”）\n输出1\n",
 }
 
+// the early failing execution: an uncaught fault three calls deep, one of the calls a method of an object
+const isoEarlyFail = "定义早类：\n    其p = 1\n\n    如何深？\n        输出（早三：其p）\n\n如何早一？\n    令物 = （新建早类）\n    输出以物（深）\n\n如何早三？\n    输入甲\n    输出【1】#{甲 + 8}\n\n（显示：“early”）\n输出（早一）\n"
+
 // second probe program: declares names of its own inside the body of ITS redefinition of 异常's constructor, and uses them
 const isoProbe2 = "如何新建异常？\n    输入文\n    如何内助？\n        输出“mine”\n    定义内类：\n        其p = 2\n    令物 = （新建内类）\n    如果（内助） /= “mine”：\n        令丑 = 1 / 0\n    如果物之p /= 2：\n        令寅 = 1 / 0\n令错 = （新建异常：“x”）\n输出“own-names”\n"
 
@@ -83,6 +86,9 @@ func handleIso(raw json.RawMessage) interface{} {
 		os.WriteFile(p, []byte(src), 0644)
 		return z.LoadFile(p).Execute(r.ElementMap{})
 	}
+	// an execution that FAILS three calls deep, before anything else: its error value is kept and rendered only after the
+	// polluters and the probe have run (twelfth observation)
+	_, earlyErr := mk().LoadScript([]rune(isoEarlyFail)).Execute(r.ElementMap{})
 	for k, p := range c.Seq {
 		if !c.Same {
 			z = mk()
@@ -131,8 +137,12 @@ func handleIso(raw json.RawMessage) interface{} {
 		} else {
 			eleventh = zn.Snapshot(v2)
 		}
+		var twelfth interface{} = map[string]interface{}{"t": "error", "msg": "the early program did not fail"}
+		if earlyErr != nil {
+			twelfth = map[string]interface{}{"t": "str", "v": earlyErr.Error()}
+		}
 		if items, ok := val["v"].([]interface{}); ok {
-			val["v"] = append(items, tenth, eleventh)
+			val["v"] = append(items, tenth, eleventh, twelfth)
 		}
 		res["val"] = val
 	}
